@@ -65,6 +65,17 @@ func runC13(r *core.Run) {
 			}
 		}, checkPack)
 
+	bufferReuse(r, append(enum.AllStrings("ACGT", 3), "GATTACCA", "GATTGCCA", "acgtACGTa", "TTTTTTTT", "\x1b\xe4", "\x00\xff\x1b"), []string{"DNATo2Bit", "DNAFrom2Bit", "DNATo2Bit then DNAFrom2Bit"},
+		func(fn string, in []byte) string {
+			switch fn {
+			case "DNATo2Bit":
+				return string(sequtil.DNATo2Bit(nil, in))
+			case "DNAFrom2Bit":
+				return string(sequtil.DNAFrom2Bit(nil, in))
+			}
+			return string(sequtil.DNAFrom2Bit(nil, sequtil.DNATo2Bit(nil, in)))
+		})
+
 	core.Clause(r, "dst-contents-pack", core.Opts{Rule: dstRule},
 		genDstCases([]string{"", "A", "t", "ACG", "ACGT", "acgtTGCAg", "ACGTACGTACGTACGTACGTACGTACGTACGTACGTA", "ACNG", "\x00", "AC\x00", "ACGT\xff", "N"}),
 		checkDstContract("DNATo2Bit", sequtil.DNATo2Bit, ref.Pack2Bit))
